@@ -534,6 +534,45 @@ Proof.
   intros ddt Hr Hd. apply (fire_succ tb h _ ddt Hr Hd). cbn. lra.
 Qed.
 
+(* the same two facts as equations on the core, for invariants that constrain clock changes *)
+Lemma pend_step_shape tb h s0 : exists n2 q2 o2,
+  umoves (e_time h, nextid s0, remove_id (e_id h) (queue s0), hrec h :: out s0) (e_time h, n2, q2, o2)
+  /\ core_of (pend_step tb h s0) = (e_time h, n2, q2, trec h :: o2).
+Proof.
+  unfold pend_step.
+  set (s1 := set_clock (e_time h) (set_queue (remove_id (e_id h) (queue s0)) s0)).
+  pose proof (fire_umoves tb h s1) as H. pose proof (fire_clock tb h s1) as Hc.
+  exists (nextid (fire tb h s1)), (queue (fire tb h s1)), (out (fire tb h s1)).
+  unfold core_of in *. cbn [clock nextid queue out emit] in *.
+  subst s1. cbn [clock nextid queue out set_clock set_queue] in *. rewrite Hc in *.
+  split; [exact H|reflexivity].
+Qed.
+
+Lemma fire_event_shape tb x t e s : exists k m pi j n2 q2 o2,
+  umoves (clock s, nextid s, queue s, OHandler k t (clock s) e (Some m) :: out s) (clock s, n2, q2, o2)
+  /\ core_of (fire_event tb x t e s) = (clock s, n2, q2, OTap t pi (NEv pi j) e :: o2).
+Proof.
+  destruct x as [[pi j] ev]. unfold fire_event.
+  set (s1 := emit _ s).
+  pose proof (run_prog_umoves tb pi (ev_prog ev) t e s1) as H.
+  pose proof (core_clock _ _ H) as Hc.
+  exists (ev_prog ev), (mem e (locus s (ev_locus ev))), pi, j.
+  exists (nextid (run_prog tb pi (ev_prog ev) t e s1)), (queue (run_prog tb pi (ev_prog ev) t e s1)),
+         (out (run_prog tb pi (ev_prog ev) t e s1)).
+  unfold core_of in *. cbn [clock nextid queue out emit] in *. rewrite Hc in *. subst s1.
+  cbn [clock nextid queue out emit] in *. split; [exact H|reflexivity].
+Qed.
+
+Lemma discard_dead_fix f q :
+  match head q with None => True | Some h => e_live h = true end -> discard_dead f q = q.
+Proof. destruct f as [|f]; cbn; [reflexivity|]. destruct (head q) as [h|]; [intros ->|]; reflexivity. Qed.
+
+Lemma discard_discard s : discard (discard s) = discard s.
+Proof.
+  unfold discard at 1. cbn [queue set_queue discard]. unfold discard. cbn.
+  rewrite discard_dead_fix; [reflexivity|]. apply discard_dead_head. apply le_n.
+Qed.
+
 Lemma run_pendingL_kmoves tb fuel t n s : forall n' s' l,
   run_pendingL tb fuel t n s = (n', s', l) -> kmoves (core_of s) l (core_of s').
 Proof.
